@@ -57,6 +57,7 @@ theorem codec_facts :
     next acknowledged version links to objects that do not exist -/
 theorem complete_version_facts :
     F.commitOrder = ["flushNodes", "putRoot", "retireParents"] ∧ F.commitChecksErrors = true ∧
+    F.retireOrder = ["putMerged", "delCurrent"] ∧ F.retireStopsOnPutError = true ∧
     F.commitKeepsSnapshotOnError = true ∧ F.rollbackRestoresSnapshot = true ∧ F.beginClonesTree = true ∧
     F.nameIsHashOfStoredBytes = true := by
   decide
